@@ -72,25 +72,40 @@ func ruleOPBIJ(c *Ctx, r *Report) {
 	// Operator.String and the encoder both read toString
 	enc := c.method(pkgExpr, "Expression", "MarshalJSON")
 	dec := c.method(pkgExpr, "Expression", "UnmarshalJSON")
-	usesTable := func(f *ssa.Function, g *ssa.Global) bool {
-		if f == nil {
+	// directly, or through a function that reads the table (Operator.String), or — when the table is
+	// written as a dispatch function — by calling that function
+	var usesTable func(f *ssa.Function, tb *Table, depth int) bool
+	usesTable = func(f *ssa.Function, tb *Table, depth int) bool {
+		if f == nil || depth > 3 {
 			return false
 		}
 		for _, b := range f.Blocks {
 			for _, in := range b.Instrs {
-				if u, ok := in.(*ssa.UnOp); ok && u.X == ssa.Value(g) {
+				if u, ok := in.(*ssa.UnOp); ok && tb.Global != nil && u.X == ssa.Value(tb.Global) {
 					return true
+				}
+				if call, ok := in.(*ssa.Call); ok {
+					g := call.Call.StaticCallee()
+					if g == nil || !inLib(g) {
+						continue
+					}
+					if g == tb.Fn {
+						return true
+					}
+					if g != f && fnPkgPath(g) == pkgExpr && g.Signature.Results().Len() <= 2 && len(g.Blocks) <= 3 && usesTable(g, tb, depth+1) {
+						return true
+					}
 				}
 			}
 		}
 		return false
 	}
-	if usesTable(enc, ts.Global) {
+	if usesTable(enc, ts, 0) {
 		r.ok(rule, "encoder-uses-toString", c.pos(enc.Pos()), "operator name written from toString")
 	} else {
 		r.bad(rule, "encoder-uses-toString", "-", "MarshalJSON does not take operator names from toString")
 	}
-	if usesTable(dec, fs.Global) {
+	if usesTable(dec, fs, 0) {
 		r.ok(rule, "decoder-uses-fromString", c.pos(dec.Pos()), "operator read through fromString")
 	} else {
 		r.bad(rule, "decoder-uses-fromString", "-", "UnmarshalJSON does not read operator names through fromString")
